@@ -153,7 +153,8 @@ def gen_action(rng, p):
 
 
 # ------------------------------------------------------------------ one history on the real object
-def run_history(hexdata, actions=None, seed=None, length=0, observe_all=False):
+def run_history(hexdata, actions=None, seed=None, length=0, observe_all=False, only_read=None,
+                final_obs=True):
     """Drive the real (logged) Pickled through a history.  Model-free oracles at every step:
     every view read equals that of a freshly constructed Pickled(list(p)); dumps() equals the
     concatenation of the current opcodes' encodings; the opcode list equals a mirrored Python list."""
@@ -221,7 +222,12 @@ def run_history(hexdata, actions=None, seed=None, length=0, observe_all=False):
         explicit.append(act)
         kind = act[0]
         if kind == "read":
-            do_read(act[1])
+            if only_read is None:
+                do_read(act[1])
+            elif count - 1 == only_read:      # isolated reference: first view ever evaluated in this process
+                steps.append({"real": "ans:" + cachelib.view(cachelib.fresh_copy(p), act[1]) + " ids=",
+                              "read": act[1], "m": None})
+                break
             continue
         p.log = []
         raised, item, mact = None, None, None
@@ -336,14 +342,14 @@ def run_history(hexdata, actions=None, seed=None, length=0, observe_all=False):
         if observe_all:
             for name in OBS:
                 do_read(name)
-    if not observe_all:
+    if not observe_all and final_obs and only_read is None:
         for name in OBS:
             explicit.append(["read", name])
             do_read(name)
     line = None
     init = [pool.sexp(k) for k in init_ids]
     cyclic = state["cyclic"] or any(s["real"].startswith("ans:ERR RecursionError") for s in steps)
-    if all(s is not None for s in init) and not state["outside"] and not cyclic:
+    if only_read is None and all(s is not None for s in init) and not state["outside"] and not cyclic:
         stds, reprs = pool.tables()
         line = sx(["cache_run", init, [s["m"] for s in steps], stds, reprs, "id"])
     nprim = sum(1 for s in steps if "read" not in s)
@@ -353,13 +359,21 @@ def run_history(hexdata, actions=None, seed=None, length=0, observe_all=False):
             "view_changed": changed, "cyclic": cyclic}
 
 
+SEQ = [0]
+
+
 def _work(batch):
+    import os
     sys.setrecursionlimit(3000)
     out = []
     for c in batch:
+        SEQ[0] += 1
         try:
-            out.append(run_history(c["hex"], c.get("actions"), c.get("seed"), c.get("length", 0),
-                                   c.get("observe_all", False)))
+            r = run_history(c["hex"], c.get("actions"), c.get("seed"), c.get("length", 0),
+                            c.get("observe_all", False))
+            if r is not None:
+                r["worker"] = [os.getpid(), SEQ[0]]
+            out.append(r)
         except Exception as e:
             out.append({"steps": [], "bad": [{"step": "crash", "why": f"{type(e).__name__}: {e}"}],
                         "known": False, "line": None, "actions": c.get("actions") or [], "nedits": 0,
@@ -381,6 +395,84 @@ def oracle_case(hexdata, actions):
         return {"hex": hexdata, "history": actions, "first": r["bad"][0],
                 "oracle": "a view of the edited object differs from a freshly constructed Pickled with the "
                           "same opcode list (or dumps / the opcode list is not what the edits produce)"}
+    return None
+
+
+CHILD = None
+
+
+def isolated_answers(jobs):
+    import os
+    import subprocess
+    from harness.common import PY, VERIF, env_child
+    child = os.path.join(VERIF, "harness", "cache_child.py")
+    p = subprocess.run([PY, child], input=json.dumps({"jobs": jobs}), capture_output=True, text=True,
+                       env=env_child(), timeout=1500)
+    if p.returncode != 0:
+        raise RuntimeError("cache_child failed: " + p.stderr[-500:])
+    return json.loads(p.stdout)["answers"]
+
+
+def oracle_isolated(hexdata, actions):
+    """model-free, and free of state shared between objects: every view read of the history is compared
+    with the same view evaluated in a NEW PROCESS on a freshly constructed Pickled with the same opcode
+    list (edits replayed there without reading anything first)"""
+    sys.setrecursionlimit(3000)
+    full = []
+    for a in actions:
+        full.append(a)
+        if a[0] != "read":
+            full += [["read", n] for n in OBS]
+    r = run_history(hexdata, actions=full, final_obs=False)
+    if not r:
+        return None
+    reads = [s for s in r["steps"] if "read" in s]
+    idx = [i for i, a in enumerate(full) if a[0] == "read"]
+    if len(reads) != len(idx):
+        return None
+    iso = isolated_answers([{"mode": "c14", "hex": hexdata, "actions": full, "only_read": i} for i in idx])
+    for st, i, ref in zip(reads, idx, iso):
+        real = st["real"][4:st["real"].rfind(" ids=")]
+        if st.get("known") or not isinstance(ref, str):
+            continue
+        if real != ref:
+            return {"hex": hexdata, "history": actions, "isolated": True,
+                    "first": {"step": i, "view": full[i][1], "object": real[:300],
+                              "fresh_Pickled_in_a_new_process": ref[:300]},
+                    "oracle": "a view of the edited object differs from the same view of a freshly constructed "
+                              "Pickled with the same opcode list evaluated in a new process"}
+    return None
+
+
+def expand(actions):
+    full = []
+    for a in actions:
+        full.append(a)
+        if a[0] != "read":
+            full += [["read", n] for n in OBS]
+    return full
+
+
+def oracle_context(hexdata, actions, context):
+    """views must not depend on what ELSE the process analysed before: this history after each single
+    earlier history of the same worker (then after all of them) vs the per-read isolated references"""
+    full = expand(actions)
+    idx = [i for i, a in enumerate(full) if a[0] == "read"]
+    iso = isolated_answers([{"mode": "c14", "hex": hexdata, "actions": full, "only_read": i} for i in idx])
+    singles = [[c] for c in context[::-1][:400]]
+    jobs = [{"mode": "c14ctx", "context": ctx, "hex": hexdata, "actions": full}
+            for ctx in singles + ([context] if len(context) > 1 else [])]
+    for job, reads in zip(jobs, isolated_answers(jobs)):
+        if not reads or len(reads) != len(idx):
+            continue
+        for (real, known), i, ref in zip(reads, idx, iso):
+            if known or not isinstance(ref, str) or real == ref:
+                continue
+            return {"hex": hexdata, "history": actions, "context": job["context"],
+                    "first": {"step": i, "view": full[i][1], "object_after_context": real[:300],
+                              "fresh_Pickled_in_a_new_process": ref[:300]},
+                    "oracle": "after another history was run in the same process, a view of the edited object "
+                              "differs from the same view of a fresh Pickled with the same opcodes in a new process"}
     return None
 
 
@@ -556,6 +648,22 @@ def main(tier, seed):
             why = oracle_case(m["hex"], m["history"])
             if why:
                 return why
+        for m in (bad_free + mism)[:3]:     # state shared between objects can fool the in-process oracle
+            why = oracle_isolated(m["hex"], m["history"])
+            if why:
+                return why
+            me = next((r for c, r in zip(cases, results) if r and c["hex"] == m["hex"]
+                       and r["actions"] == m["history"]), None)
+            if me and me.get("worker"):
+                pid, seq = me["worker"]
+                ctx = sorted(((r["worker"][1], {"hex": c["hex"], "actions": r["actions"],
+                                                "observe_all": c.get("observe_all", False)})
+                              for c, r in zip(cases, results)
+                              if r and r.get("worker") and r["worker"][0] == pid and r["worker"][1] < seq),
+                             key=lambda t: t[0])
+                why = oracle_context(m["hex"], m["history"], [c for _, c in ctx])
+                if why:
+                    return why
         return None
 
     report_broken_obligations(chk, search)
@@ -568,7 +676,12 @@ def replay(path):
     if "hex" not in case:
         print("replay: no concrete input recorded; re-running the quick check")
         return main("quick", doc.get("seed", 0))
-    why = oracle_case(case["hex"], case["history"])
+    if case.get("context"):
+        why = oracle_context(case["hex"], [a for a in case["history"]], case["context"])
+    elif case.get("isolated"):
+        why = oracle_isolated(case["hex"], case["history"])
+    else:
+        why = oracle_case(case["hex"], case["history"])
     if why:
         print(f"VIOLATION property=C14 replay={path}")
         print(json.dumps(why)[:2000])
